@@ -1,7 +1,7 @@
 """C01 - bounded exploration of the real controller (see checks/ctrlx.py) plus proved per-function obligations."""
 from checks import common, ctrl_common
 
-PROVED_TARGETS = []
+PROVED_TARGETS = ["cascade.executor.runner.memory:Memory.handle", "cascade.executor.runner.memory:Memory.provide"]
 
 
 def run(tier, seed):
